@@ -40,6 +40,7 @@ class CannotTranslate(Exception):
 # ---------------------------------------------------------------- tokenizer
 TOK = re.compile(r"""
     (?P<ws>\s+|//[^\n]*|/\*.*?\*/)
+  | (?P<str>"(?:[^"\\]|\\.)*")
   | (?P<int>\d[\d_]*(?:usize|u64|u32|u16)?)
   | (?P<id>[A-Za-z_][A-Za-z0-9_]*)
   | (?P<op>=>|->|::|&&|\|\||==|!=|<=|>=|\.\.=|\.\.|[-+*/%&|!<>=(){}\[\],;.:?\#'])
